@@ -756,7 +756,7 @@ mod pipeline {
 
     use crate::communicate::{self, Communicator};
     use crate::os_common::ExitStatus;
-    use crate::popen::{Popen, Redirection, Result as PopenResult};
+    use crate::popen::{Popen, PopenError, Redirection, Result as PopenResult};
 
     use super::exec::{CaptureData, Exec, InputRedirection, OutputRedirection};
 
@@ -948,8 +948,15 @@ mod pipeline {
         /// to missing output), except for the ones for which
         /// `detached()` was called.  This is equivalent to what the
         /// shell does.
-        pub fn popen(mut self) -> PopenResult<Vec<Popen>> {
+        pub fn popen(self) -> PopenResult<Vec<Popen>> {
             self.check_no_stdin_data("popen");
+            self.popen_partial().map_err(|(err, _started)| err)
+        }
+
+        // Like popen(), but on failure also hands back the commands started
+        // so far.  They are waited for when dropped, so this lets the caller
+        // release whatever they might be blocked on first.
+        fn popen_partial(mut self) -> Result<Vec<Popen>, (PopenError, Vec<Popen>)> {
             assert!(self.cmds.len() >= 2);
 
             if let Some(stderr_to) = self.stderr_file {
@@ -988,7 +995,7 @@ mod pipeline {
                         if let Some(first) = ret.first_mut() {
                             first.stdin.take();
                         }
-                        return Err(e);
+                        return Err((e, ret));
                     }
                 }
             }
@@ -1047,7 +1054,17 @@ mod pipeline {
             self = self.stderr_to(err_write);
 
             let stdin_data = self.stdin_data.take();
-            let mut v = self.stdout(Redirection::Pipe).popen()?;
+            let mut v = match self.stdout(Redirection::Pipe).popen_partial() {
+                Ok(v) => v,
+                Err((err, started)) => {
+                    // Nobody is going to read the stderr pipe.  Close it
+                    // before the commands started so far are waited for, or
+                    // one blocked writing to it keeps the wait from returning.
+                    drop(err_read);
+                    drop(started);
+                    return Err(err);
+                }
+            };
             let vlen = v.len();
 
             let comm = communicate::communicate(
